@@ -9,4 +9,21 @@ func (ctx *Context) GetInputResponse() (resp protocols.Response)
   trusted
   pure
   ensures resp != nil ==> typeIs(resp, "*httpprot.Response") && ifaceVal(resp) != 0 && ptr(ifaceVal(resp), "*httpprot.Response").Response != nil && ptr(ifaceVal(resp), "*httpprot.Response").Response.Header != nil
+
+// the response the client will see at the end of the pipeline (output namespace)
+ghost var outResp int
+
+func (ctx *Context) SetOutputResponse(resp protocols.Response)
+  trusted
+  requires ctx != nil
+  modifies outResp
+  ensures outResp == ifaceVal(resp)
+
+ufunc ctxInput(c int) int
+func (ctx *Context) GetInputRequest() (req protocols.Request)
+  trusted
+  pure
+  ensures (req != nil) <==> ctxInput(ref(ctx)) != 0
+  ensures ifaceVal(req) == ctxInput(ref(ctx))
+  ensures req != nil ==> typeIs(req, "*httpprot.Request") && ifaceVal(req) != 0 && ptr(ifaceVal(req), "*httpprot.Request").Request != nil
 @*/
